@@ -169,6 +169,13 @@ where
             .as_ref()
             .ok_or(PlanningError::PlannerUninitialised)?;
         let goal = &pd.goal;
+        let vc = self
+            .validity_checker
+            .as_ref()
+            .ok_or(PlanningError::PlannerUninitialised)?;
+        if !vc.is_valid(&pd.start_states[0]) {
+            return Err(PlanningError::InvalidStartState);
+        }
 
         let mut rng = self
             .rng
